@@ -11,6 +11,7 @@ package keeper
 //@ family prm        key global:types.PrefixParamsKey value v1.Params
 
 //@ define MOD = macc("token")
+//@ define ERCADDR(h) = ufbytes("hex_to_addr", h)
 //@ define capOf(t) = t.MaxSupply * pow10(t.Scale)
 // record well-formedness: stored under its own symbol, indexed by its min unit, scale within range
 //@ define tokWF(sym) = has(tokens, sym) ==> get(tokens, sym).Symbol == sym && get(tokens, sym).Scale <= 18
@@ -270,15 +271,24 @@ package keeper
 //@ end
 
 // ERC20 side (EVM calls through the contract ABI): assumed contracts - they do not touch the bank ledger
+// The ERC20 side of a conversion lives in the EVM, outside this module's store. Ghost state erc20(contract, holder)
+// stands for the holder's balance on a token contract; the two EVM calls below (trusted: their bodies run the EVM) are
+// the only things that move it, by exactly the amount handed to them. With it the contracts of the swap entry points
+// say WHOSE ERC20 balance a conversion burns or credits (C10).
+//@ family erc20 key ghost:Bytes,Bytes value int64
 //@ func Keeper.BurnERC20(ctx, contract, from, amount)
 //@   property C10
 //@   trusted
 //@   returns err
+//@   modifies erc20
+//@   ensures burned: err == nil ==> erc20 == set(old(erc20), contract, from, get(old(erc20), contract, from) - amount)
 //@ end
 //@ func Keeper.MintERC20(ctx, contract, to, amount)
 //@   property C10
 //@   trusted
 //@   returns err
+//@   modifies erc20
+//@   ensures minted: err == nil ==> erc20 == set(old(erc20), contract, to, get(old(erc20), contract, to) + amount)
 //@ end
 //@ func Keeper.ERC20Enabled(ctx)
 //@   property C10
@@ -303,19 +313,47 @@ package keeper
 //@   property C10
 //@   returns err
 //@   requires wantedAmount.Amount >= 0 && ufb("denom_valid", wantedAmount.Denom) && receiver != MOD
-//@   modifies bal, supply
+//@   let tk = get(tokens, get(byMinUnit, wantedAmount.Denom))
+//@   modifies bal, supply, erc20
 //@   ensures minted_to_receiver: err == nil ==> bal == credit(old(bal), receiver, wantedAmount.Denom, wantedAmount.Amount)
 //@                                 && supply == addcoin(old(supply), wantedAmount.Denom, wantedAmount.Amount)
 //@   ensures known_token: err == nil ==> has(byMinUnit, wantedAmount.Denom)
+//@   ensures erc20_burned_from_sender: err == nil ==> erc20 == set(old(erc20), ERCADDR(tk.Contract), sender, get(old(erc20), ERCADDR(tk.Contract), sender) - wantedAmount.Amount)
 //@ end
 //@ func Keeper.SwapToERC20(ctx, sender, receiver, amount)
 //@   property C10
 //@   returns err
 //@   requires amount.Amount >= 0 && ufb("denom_valid", amount.Denom) && sender != MOD
-//@   modifies bal, supply
+//@   let tk = get(tokens, get(byMinUnit, amount.Denom))
+//@   modifies bal, supply, erc20
 //@   ensures burned_from_sender: err == nil ==> bal == debit(old(bal), sender, amount.Denom, amount.Amount)
 //@                                 && supply == addcoin(old(supply), amount.Denom, 0 - amount.Amount)
 //@   ensures known_token: err == nil ==> has(byMinUnit, amount.Denom)
+//@   ensures erc20_minted_to_receiver: err == nil ==> erc20 == set(old(erc20), ERCADDR(tk.Contract), receiver, get(old(erc20), ERCADDR(tk.Contract), receiver) + amount.Amount)
+//@ end
+
+// The message handlers: the ERC20 side is burned from the address of the SIGNER (msg.Sender), the native coins go to
+// msg.Receiver; the other way round the native coins are the signer's and the ERC20 amount goes to msg.Receiver.
+//@ define ETHOF(a) = ufbytes("bytes_to_addr", a)
+//@ func msgServer.SwapFromERC20(goCtx, msg)
+//@   property C10
+//@   returns resp, err
+//@   requires msg.WantedAmount.Amount >= 0 && ufb("denom_valid", msg.WantedAmount.Denom) && addr(msg.Receiver) != MOD
+//@   let tk = get(tokens, get(byMinUnit, msg.WantedAmount.Denom))
+//@   modifies bal, supply, erc20
+//@   ensures erc20_from_signer: err == nil ==> erc20 == set(old(erc20), ERCADDR(tk.Contract), ETHOF(addr(msg.Sender)),
+//@                                 get(old(erc20), ERCADDR(tk.Contract), ETHOF(addr(msg.Sender))) - msg.WantedAmount.Amount)
+//@   ensures native_to_receiver: err == nil ==> bal == credit(old(bal), addr(msg.Receiver), msg.WantedAmount.Denom, msg.WantedAmount.Amount)
+//@ end
+//@ func msgServer.SwapToERC20(goCtx, msg)
+//@   property C10
+//@   returns resp, err
+//@   requires msg.Amount.Amount >= 0 && ufb("denom_valid", msg.Amount.Denom) && addr(msg.Sender) != MOD
+//@   let tk = get(tokens, get(byMinUnit, msg.Amount.Denom))
+//@   modifies bal, supply, erc20
+//@   ensures native_from_signer: err == nil ==> bal == debit(old(bal), addr(msg.Sender), msg.Amount.Denom, msg.Amount.Amount)
+//@   ensures erc20_to_receiver: err == nil ==> erc20 == set(old(erc20), ERCADDR(tk.Contract), ufbytes("hex_to_addr", msg.Receiver),
+//@                                 get(old(erc20), ERCADDR(tk.Contract), ufbytes("hex_to_addr", msg.Receiver)) + msg.Amount.Amount)
 //@ end
 
 // ---------------------------------------------------------------------------------------------
